@@ -279,6 +279,22 @@ var c12Grafts = map[string][]struct {
 	"Job":                   {{jpath{"spec", "parallelism"}, `null`}, {jpath{"spec", "template"}, `{}`}},
 	"Service":               {{jpath{"spec", "ports"}, `[{"port":80,"targetPort":null},{"targetPort":"x"},{}]`}, {jpath{"spec", "selector"}, `null`}},
 	"NetworkPolicy": {
+		// single-purpose port shapes (a rule without peers applies to every peer, so the ports are evaluated)
+		{jpath{"spec", "ingress"}, `[{"ports":[{"endPort":90}]}]`},
+		{jpath{"spec", "egress"}, `[{"ports":[{"protocol":"TCP","endPort":8080}]}]`},
+		{jpath{"spec", "ingress"}, `[{"ports":[{"port":null,"endPort":1}]}]`},
+		{jpath{"spec", "egress"}, `[{"ports":[{}]}]`},
+		{jpath{"spec", "ingress"}, `[{"ports":[{"port":"http","endPort":90}]}]`},
+		{jpath{"spec", "ingress"}, `[{"ports":[{"port":90,"endPort":80}]}]`},
+		{jpath{"spec", "egress"}, `[{"ports":[{"port":0}]},{"ports":[{"port":70000}]},{"ports":[{"port":-1}]}]`},
+		{jpath{"spec", "ingress"}, `[{"ports":[{"protocol":"ICMP","port":80}]}]`},
+		{jpath{"spec", "ingress"}, `[{"ports":[{"protocol":"","port":""}]}]`},
+		{jpath{"spec", "podSelector"}, `{}`},
+		{jpath{"spec", "policyTypes"}, `["Ingress","Egress","Bogus"]`},
+		{jpath{"spec", "policyTypes"}, `[]`},
+		{jpath{"spec", "ingress"}, `[{"from":[{"podSelector":null,"namespaceSelector":null,"ipBlock":null}]}]`},
+		{jpath{"spec", "egress"}, `[{"to":[{"ipBlock":{"cidr":"10.0.0.0/8","except":["10.0.0.0/8"]}}]}]`},
+		{jpath{"spec", "egress"}, `[{"to":[{"ipBlock":{"cidr":"10.0.0.0/8"},"podSelector":{}}]}]`},
 		{jpath{"spec", "ingress"}, `[{"from":[{}]}]`},
 		{jpath{"spec", "egress"}, `[{"to":[{"ipBlock":{"cidr":"10.0.0.0/8","except":["11.0.0.0/8"]}}],"ports":[{"endPort":90}]}]`},
 		{jpath{"spec", "ingress"}, `[{"ports":[{"port":"http","endPort":90},{"port":90,"endPort":80},{"protocol":"ICMP","port":80}]}]`},
@@ -286,6 +302,12 @@ var c12Grafts = map[string][]struct {
 		{jpath{"spec", "podSelector"}, `{"matchExpressions":[{"key":"a","operator":"In"},{"key":"","operator":"Bogus","values":["x"]}]}`},
 	},
 	"AdminNetworkPolicy": {
+		{jpath{"spec", "ingress"}, `[{"action":"Allow","from":[{"namespaces":{}}],"ports":[{"portNumber":{}}]}]`},
+		{jpath{"spec", "ingress"}, `[{"action":"Deny","from":[{"namespaces":{}}],"ports":[{"portRange":{}}]}]`},
+		{jpath{"spec", "egress"}, `[{"action":"Allow","to":[{"namespaces":{}}],"ports":[{"portNumber":{"protocol":"TCP","port":0}},{"portRange":{"start":0,"end":70000}}]}]`},
+		{jpath{"spec", "egress"}, `[{"action":"Pass","to":[{"pods":{}}],"ports":[]}]`},
+		{jpath{"spec", "ingress"}, `[{"action":"Allow","from":[{"pods":{"podSelector":{}}}],"ports":null}]`},
+		{jpath{"spec", "subject"}, `{"namespaces":{}}`},
 		{jpath{"spec", "subject"}, `{}`},
 		{jpath{"spec", "subject"}, `{"namespaces":{},"pods":{"namespaceSelector":{},"podSelector":{}}}`},
 		{jpath{"spec", "ingress"}, `[{"action":"Allow","from":[{}]},{"action":"Bogus","from":[{"namespaces":{}}],"ports":[{}]}]`},
